@@ -116,13 +116,35 @@ def components(ctx, n, nw, ngas, zero=None):
     try:
         ab, ci, ra = AbsorptionContribution(), CIAContribution(cia_pairs=list(pairs)), RayleighContribution()
         got = {}
+        first = {}
         for name, c in (('abs', ab), ('cia', ci), ('ray', ra)):
             c._nlayers, c._ngrid = n, nw
             got[name] = [(g, np.array(s, dtype=object if ctx.sym else float).copy()) for g, s in c.prepare_each(m, wn)]
             c.prepare(m, wn)
+            first[name] = np.array(c.sigma_xsec, dtype=object if ctx.sym else float).copy()
+        # a second evaluation of the same objects after the abundances changed (a sampler step): totals must be
+        # those of the current state only (no buffer carried over)
+        mix2 = {g: (mix[g] if g == zero else mix[g] * 2.0) for g in gases}      # abundances doubled
+        chem._mix = mix2
+        second = {}
+        for name, c in (('abs', ab), ('cia', ci), ('ray', ra)):
+            c.prepare(m, wn)
+            second[name] = np.array(c.sigma_xsec, dtype=object if ctx.sym else float).copy()
+        chem._mix = mix
     finally:
         for e in reversed(envs):
             e.__exit__(None, None, None)
+    exp2 = {'abs': [lambda l, v, g=g: xs[g][l, v] * mix2[g][l] for g in chem.activeGases],
+            'cia': [lambda l, v, p=p: cia[p][l, v] * mix2[p.split('-')[0]][l] * mix2[p.split('-')[1]][l] for p in pairs],
+            'ray': [lambda l, v, g=g: ray[g][v] * mix2[g][l] for g in gases if g != zero]}
+    for name in ('abs', 'cia', 'ray'):
+        for l in range(n):
+            for v in range(nw):
+                sm = 0.0
+                for f in exp2[name]:
+                    sm = sm + f(l, v)
+                ctx.goal('%s_total_second_evaluation[%d,%d]' % (name, l, v), ctx.eq(second[name][l, v], sm))
+        # (with every abundance doubled this also shows the weighted opacity is proportional to the abundance)
     exp = {'abs': [(g, lambda l, v, g=g: xs[g][l, v] * mix[g][l]) for g in chem.activeGases],
            'cia': [(p, lambda l, v, p=p: cia[p][l, v] * mix[p.split('-')[0]][l] * mix[p.split('-')[1]][l]) for p in pairs],
            'ray': [(g, lambda l, v, g=g: ray[g][v] * mix[g][l]) for g in (list(chem.activeGases) + list(chem.inactiveGases))
@@ -137,7 +159,7 @@ def components(ctx, n, nw, ngas, zero=None):
             for l in range(n):
                 for v in range(nw):
                     ctx.goal('%s_component[%s,%d,%d]' % (name, g, l, v), ctx.eq(s[l, v], f(l, v)))
-        tot = c.sigma_xsec
+        tot = first[name]
         for l in range(n):
             for v in range(nw):
                 sm = 0.0
